@@ -876,6 +876,59 @@ fn run_real(searcher: &Searcher, q: &dyn Query, kind: &Kind, k: usize, o: usize)
     }
 }
 
+/// correspondence for `Model/LazyKey.lean`: the REAL `accept_sort_key_lazy` of the tuple's segment
+/// computer (through the public `SortKeyComputer` / `SegmentSortKeyComputer` traits) on sampled
+/// (document, threshold document) pairs of a segment vs the model's chained `acceptPair`. A component
+/// under its comparator is its rank under the natural order: `None` lowest; descending `v + 1`,
+/// ascending `u64::MAX - v + 1`.
+fn lazy_probe_real<C: SortKeyComputer>(comp: C, reader: &SegmentReader, pairs: &[(DocId, DocId)]) -> Option<Vec<&'static str>> {
+    let mut child = comp.segment_sort_key_computer(reader).ok()?;
+    Some(pairs.iter().map(|(d, t)| {
+        let thr = child.segment_sort_key(*t, 0.0);
+        match child.accept_sort_key_lazy(*d, 0.0, &thr) {
+            None => "none",
+            Some((Ordering::Less, _)) => "lt",
+            Some((Ordering::Equal, _)) => "eq",
+            Some((Ordering::Greater, _)) => "gt",
+        }
+    }).collect())
+}
+
+fn lazy_accept_probe(ctx: &mut Ctx, searcher: &Searcher, kind: &Kind, rng_seed: u64) {
+    let Kind::Tuple(shape, c, a) = kind else { return };
+    let by = |c: u8, asc: bool| (SortByStaticFastValue::<u64>::for_field(TUPLE_COLS[c as usize]), if asc { Order::Asc } else { Order::Desc });
+    let mut rng = Rng(rng_seed ^ 0x1a2b);
+    for (ord, reader) in searcher.segment_readers().iter().enumerate().take(2) {
+        let n = reader.max_doc();
+        if n == 0 { continue; }
+        let pairs: Vec<(DocId, DocId)> = (0..8).map(|_| (rng.below(n as u64) as DocId, rng.below(n as u64) as DocId)).collect();
+        let real = catch_unwind(AssertUnwindSafe(|| match shape {
+            0 => lazy_probe_real((by(c[0], a[0]), by(c[1], a[1]), by(c[2], a[2])), reader, &pairs),
+            1 => lazy_probe_real((by(c[0], a[0]), by(c[1], a[1]), by(c[2], a[2]), by(c[3], a[3])), reader, &pairs),
+            2 => lazy_probe_real(((by(c[0], a[0]), by(c[1], a[1]), by(c[2], a[2])), by(c[3], a[3])), reader, &pairs),
+            3 => lazy_probe_real((by(c[0], a[0]), (by(c[1], a[1]), by(c[2], a[2]), by(c[3], a[3]))), reader, &pairs),
+            _ => lazy_probe_real(((by(c[0], a[0]), by(c[1], a[1])), (by(c[2], a[2]), by(c[3], a[3]))), reader, &pairs),
+        }));
+        let Ok(Some(real)) = real else { continue };
+        let cols: Vec<Column<u64>> = TUPLE_COLS.iter().map(|nm| reader.fast_fields().u64(nm).unwrap()).collect();
+        let ncomp = if *shape == 0 { 3 } else { 4 };
+        let rank = |doc: DocId, i: usize| -> u128 {
+            match cols[c[i] as usize].first(doc) { None => 0, Some(v) => if a[i] { (u64::MAX - v) as u128 + 1 } else { v as u128 + 1 } }
+        };
+        for ((d, t), r) in pairs.iter().zip(real.iter()) {
+            let ks: Vec<String> = (0..ncomp).map(|i| rank(*d, i).to_string()).collect();
+            let ts: Vec<String> = (0..ncomp).map(|i| rank(*t, i).to_string()).collect();
+            let model = ctx.model.ask(&format!("C06 lazyacc {shape} {} {}", ks.join(","), ts.join(",")));
+            ctx.report.count("lazy-accept-vs-model");
+            ctx.report.count(&format!("lazy-accept:{r}"));
+            if model != *r {
+                ctx.report.violation("model", "C06:lazy-accept-model-mismatch", format!("accept_sort_key_lazy of {} on segment {ord}: document {d} against the key of document {t} as threshold: real {r}, model {model} (component ranks {ks:?} vs {ts:?})", kind.name()),
+                    json!({"kind": "lazy", "collector": kind_to_json(kind), "segment": ord, "doc": d, "threshold_doc": t}));
+            }
+        }
+    }
+}
+
 fn addr_nat(a: &DocAddress) -> u64 {
     ((a.segment_ord as u64) << 32) | a.doc_id as u64
 }
@@ -1034,6 +1087,9 @@ fn check_search(ctx: &mut Ctx, spec: &CorpusSpec, built: &Built, searcher: &Sear
     let canon = format!("{}|{}|{}|{k}|{o}|{threads}|{wrap}", spec.to_json(), qe.q.to_json(), kind.name());
     let nontrivial = all.len() > k + o && spec.segs.len() >= 1 && !all.is_empty();
     ctx.report.case(&canon, nontrivial);
+    if o == 0 && wrap == 0 {
+        lazy_accept_probe(ctx, searcher, kind, (k as u64) << 8 | all.len() as u64);
+    }
     let real = match run_real(searcher, qe.query.as_ref(), kind, k, o) {
         Ok(r) => r,
         Err(e) => {
@@ -2190,6 +2246,7 @@ pub fn run(ctx: &mut Ctx) {
         "block_wand_single_scorer's callback sequence = Model/Wand.lean::wandSingle on the term's real blocks and bounds".into(),
         "Weight::for_each_pruning (block_wand_single_scorer / block_wand / block_wand_intersection) under constant, staircase and K-th-best callback policies = the exhaustive loop with the same callback (1-2 clause queries, bit-exact)".into(),
         "Weight::for_each_pruning on 2-5 term unions / conjunctions = Model/BlockWand.lean::blockWand / blockWandInter run in Float32 on the terms' real postings, blocks and bounds (offered documents, score bits, final threshold; three callback policies), also where UB_max / UB_block fail".into(),
+        "SegmentSortKeyComputer::accept_sort_key_lazy of tuple and nested-tuple keys (public trait, real segment computers) = Model/LazyKey.lean::acceptPair chains on sampled (document, threshold) pairs".into(),
         "known bound failures (UB_max, UB_block) recomputed through the public postings API before attribution".into(),
         "keys outside the model (NaN sort keys, scores not above Score::MIN): no panic, result size, no duplicates, true keys; attribution of the two known findings by their verified signatures".into(),
     ];
